@@ -161,6 +161,13 @@ theorem loadInto_inv (cfg : Cfg) (picks : List Nat) (s : State) (id : Nat) (rec 
     rcases hm with ⟨rfl, rfl⟩ | hm
     · exact ⟨rec, hst, by rw [hobjn]; rfl⟩
     · exact hC.coh id' h' (mem_erase hm).1 (by simp)
+  · intro id' h1 h2 hm1 hm2
+    simp only [insert, List.mem_cons, Prod.mk.injEq] at hm1 hm2
+    rcases hm1 with ⟨rfl, rfl⟩ | hm1 <;> rcases hm2 with ⟨hk2, rfl⟩ | hm2
+    · rfl
+    · exact absurd rfl (mem_erase hm2).2
+    · exact absurd hk2 (mem_erase hm1).2
+    · exact hC.uniq id' h1 h2 (mem_erase hm1).1 (mem_erase hm2).1
 
 end Ss
 
@@ -210,6 +217,9 @@ theorem cacheDelete_inv (s : State) (id : Nat) (hi : InvX none s) : InvX none (c
     obtain ⟨hm', hne⟩ := mem_erase hm
     obtain ⟨rec, hl, he⟩ := hi.coh id' h' hm' (by simp)
     exact ⟨rec, by rw [lookup_erase_ne _ hne]; exact hl, he⟩
+  · intro id' h1 h2 hm1 hm2
+    simp only [cacheDelete, delRec] at hm1 hm2
+    exact hi.uniq id' h1 h2 (mem_erase hm1).1 (mem_erase hm2).1
 
 theorem touch_inv (s : State) (h : Nat) (r : Req) (hi : InvX none s) : InvX none (touch s h r) :=
   inv_touch none s h _ rfl rfl hi
